@@ -11,9 +11,11 @@ import (
 	"errors"
 	"fmt"
 	"io"
+	"net"
 	"os"
 	"strings"
 	"sync/atomic"
+	"syscall"
 	"testing/iotest"
 	"text/template"
 	"time"
@@ -66,6 +68,11 @@ var tmplPrograms = []string{
 	`<table>{{range $k, $v := .Version}}<tr><td>{{$k}}</td><td title="{{$v}}">{{$v}}</td></tr>{{end}}</table><a href="?v={{.Vector}}&s={{.BaseScore}}">{{.SeverityName}}</a>`,
 	`<script>var r = {"vector": "{{.Vector}}", "score": {{.BaseScore}}, "sev": '{{.SeverityValue}}'};</script><style>p { content: "{{.Version}}" }</style>`,
 	`| {{.AVName}} | {{.AVValue}} |\n|---|---|\n{{/* markdown */}}**{{.SeverityName}}**: _{{.SeverityValue}}_ ({{.BaseScore}})`,
+	// characters that look like blanks inside an action: text/template allows space, tab, CR and LF
+	// only (round 7, C19-B-r7: a fast path whose regular expression \\s also takes a form feed)
+	"{{\f.Version}}", "{{.Version\f}}", "{{ .SeverityValue\f}}", "{{\v.Version}}", "{{.Version\v}}", "{{\u00a0.Version}}", "{{.Version\u00a0}}", "{{\u2028.Version}}", "{{\u3000.BaseScore}}",
+	"{{\x00.Version}}", "{{.Version\x00}}", "{{\ufeff.Version}}", "{{\u0085.Version}}", "{{\u200b.Version}}", "{{\r\n.Version\r\n}}", "{{\t.Version\t}}", "{{ \f }}", "{{.Version}}\f{{.BaseScore}}",
+	"{{if\f.Vector}}x{{end}}", "{{.BaseScore\f| printf \"%s\"}}", "{{ .Vector\f}} {{ .BaseScore }}", "{{.Vector}}{{\f.BaseScore}}{{.Version}}",
 	// method calls on the report: an export nested in an export (round 6, C19-A-r6: a lock held
 	// across template execution), with valid, failing and recursive inner templates
 	"{{.ExportWithString \"inner {{.Vector}}\"}}",
@@ -269,9 +276,52 @@ type failAfter struct {
 
 var errInjected = errors.New("injected read failure")
 
+// tempErr: an error value in the style of net.Error / syscall.Errno whose Temporary() and
+// Timeout() report true (round 7, C19-A-r7: reads that fail with a "temporary" error are retried)
+type tempErr struct{ msg string }
+
+func (e tempErr) Error() string   { return e.msg }
+func (e tempErr) Temporary() bool { return true }
+func (e tempErr) Timeout() bool   { return true }
+
+// failOnce delivers s but fails exactly once, after k bytes, with err (no data in that call), and
+// would deliver the rest if it were asked again.  A Read error other than io.EOF is a failure of
+// the reader; a caller that asks again and carries on exports a template the reader never
+// delivered cleanly.
+type failOnce struct {
+	s      string
+	k      int
+	err    error
+	failed bool
+}
+
+func (f *failOnce) Read(p []byte) (int, error) {
+	if !f.failed && f.k == 0 {
+		f.failed = true
+		return 0, f.err
+	}
+	if len(f.s) == 0 {
+		return 0, io.EOF
+	}
+	n := len(p)
+	if !f.failed && n > f.k {
+		n = f.k
+	}
+	if n > len(f.s) {
+		n = len(f.s)
+	}
+	copy(p, f.s[:n])
+	f.s = f.s[n:]
+	if !f.failed {
+		f.k -= n
+	}
+	return n, nil
+}
+
 // the error values a failing reader may return: anything but a bare io.EOF is a failure
 var readErrors = []error{errInjected, io.ErrUnexpectedEOF, io.ErrClosedPipe, io.ErrNoProgress, io.ErrShortBuffer, os.ErrClosed, os.ErrDeadlineExceeded, context.Canceled,
-	fmt.Errorf("wrapped: %w", io.EOF), &os.PathError{Op: "read", Path: "t", Err: errors.New("input/output error")}}
+	fmt.Errorf("wrapped: %w", io.EOF), &os.PathError{Op: "read", Path: "t", Err: errors.New("input/output error")},
+	syscall.EINTR, syscall.EAGAIN, tempErr{"temporary failure"}, &os.PathError{Op: "read", Path: "t", Err: syscall.EINTR}, &net.OpError{Op: "read", Net: "tcp", Err: tempErr{"i/o timeout"}}}
 
 func (f *failAfter) Read(p []byte) (int, error) {
 	if f.err == nil {
@@ -475,23 +525,29 @@ func init() {
 								continue // every error value on the first report, the plain one on all
 							}
 							rerr := rerr
-							atomic.AddInt64(&faultCases, 1)
-							cs := map[string]any{"report": tg.name, "template": text, "via": fmt.Sprintf("ExportWith(reader failing after %d bytes with %q)", k, rerr.Error())}
-							rd, err := func() (rd io.Reader, err error) {
-								defer func() {
-									if x := recover(); x != nil {
-										err = fmt.Errorf("panic: %v", x)
-										r.Violate(ev.Violation{Kind: "export-panics", Case: cs, Observed: fmt.Sprint(x), Expected: "an error"})
+							for variant := 0; variant < 2; variant++ {
+								variant := variant
+								atomic.AddInt64(&faultCases, 1)
+								cs := map[string]any{"report": tg.name, "template": text, "via": fmt.Sprintf("ExportWith(reader failing %safter %d bytes with %q)", []string{"", "once "}[variant], k, rerr.Error())}
+								rd, err := func() (rd io.Reader, err error) {
+									defer func() {
+										if x := recover(); x != nil {
+											err = fmt.Errorf("panic: %v", x)
+											r.Violate(ev.Violation{Kind: "export-panics", Case: cs, Observed: fmt.Sprint(x), Expected: "an error"})
+										}
+									}()
+									if variant == 1 {
+										return tg.rep.ExportWith(&failOnce{s: text, k: k, err: rerr})
 									}
+									return tg.rep.ExportWith(&failAfter{s: text, k: k, err: rerr})
 								}()
-								return tg.rep.ExportWith(&failAfter{s: text, k: k, err: rerr})
-							}()
-							if err == nil || !errors.Is(err, cvsserr.ErrInvalidTemplate) {
-								r.Violate(ev.Violation{Kind: "read-failure-not-reported", Case: cs, Observed: fmt.Sprintf("err=%v (%s)", err, lib.Class(err)), Expected: "an error matching ErrInvalidTemplate"})
-							}
-							if !isNilReader(rd) {
-								got, _, _ := readAll(rd)
-								r.Violate(ev.Violation{Kind: "partial-output", Case: cs, Observed: fmt.Sprintf("a reader holding %q", got), Expected: "no output"})
+								if err == nil || !errors.Is(err, cvsserr.ErrInvalidTemplate) {
+									r.Violate(ev.Violation{Kind: "read-failure-not-reported", Case: cs, Observed: fmt.Sprintf("err=%v (%s)", err, lib.Class(err)), Expected: "an error matching ErrInvalidTemplate"})
+								}
+								if !isNilReader(rd) {
+									got, _, _ := readAll(rd)
+									r.Violate(ev.Violation{Kind: "partial-output", Case: cs, Observed: fmt.Sprintf("a reader holding %q", got), Expected: "no output"})
+								}
 							}
 						}
 					}
@@ -550,7 +606,7 @@ func init() {
 		r.Sample(map[string]any{"template": "{{with .TemporalReport}}{{.Vector}}{{end}}", "reports": "base/temporal/environmental x en/ja", "via": "ExportWithString"})
 		r.Sample(map[string]any{"template": "{{if .Vector}}{{.Nope}}", "reader": "failing after k bytes for every k <= len"})
 		r.Set("exhaustive", true)
-		r.Set("rule", fmt.Sprintf("every sequence of <= %d atoms over a %d-atom template grammar (literals, field references of all three report levels incl. shadowed ones, unknown field/function, pipelines, if/else/end/with/range as separate atoms so that unbalanced and type-incorrect programs occur, comments, trim markers, bare '{{', define/template, three markup contexts) plus a catalogue of larger programs (terminating and unbounded recursion, nested definitions, blocks, variables, range/else, break/continue, multi-stage pipelines, markup documents) x 3 report levels x 2 languages, compared with Go's text/template parsed and executed afresh on the same report value; every template of <= 2 atoms through 5 reader behaviours and through a reader failing after k bytes for every k <= len with each of 10 error values (io.ErrUnexpectedEOF, a wrapped io.EOF, closed pipe, ...); templates with multi-byte text across every buffer boundary 256...65536; readers drained after up to 70 further exports; nil reader; nil reports; distinct by template text", maxAtoms, na))
+		r.Set("rule", fmt.Sprintf("every sequence of <= %d atoms over a %d-atom template grammar (literals, field references of all three report levels incl. shadowed ones, unknown field/function, pipelines, if/else/end/with/range as separate atoms so that unbalanced and type-incorrect programs occur, comments, trim markers, bare '{{', define/template, three markup contexts) plus a catalogue of larger programs (terminating and unbounded recursion, nested definitions, blocks, variables, range/else, break/continue, multi-stage pipelines, markup documents) x 3 report levels x 2 languages, compared with Go's text/template parsed and executed afresh on the same report value; every template of <= 2 atoms through 5 reader behaviours and through a reader failing after k bytes for every k <= len with each of 15 error values (io.ErrUnexpectedEOF, a wrapped io.EOF, closed pipe, EINTR/EAGAIN and other errors that call themselves temporary, ...), from a reader that keeps failing and from one that fails once and would then deliver the rest; templates with multi-byte text across every buffer boundary 256...65536; readers drained after up to 70 further exports; nil reader; nil reports; distinct by template text", maxAtoms, na))
 		r.Assume("Go's text/template is the reference for 'faithful' (the property's own definition)")
 		if atomic.LoadInt64(&st.okRef) == 0 || atomic.LoadInt64(&st.parseFail) == 0 || atomic.LoadInt64(&st.execFail) == 0 {
 			r.Infra("vacuity guard: the template grammar did not produce all three reference outcomes")
